@@ -34,18 +34,18 @@ directory or the snapshot path is relative, which `baseCaller`'s absolute file n
 theorem snapshotPath_tied (caller : Text) (c : Cfg) (tName : Text) (sa : Bool) :
     Generated.Funcs.snapshotPath false caller c tName sa =
       ((GoSnaps.snapshotPath c caller tName sa).1, ((GoSnaps.snapshotPath c caller tName sa).2).getD []) := by
-  unfold Generated.Funcs.snapshotPath GoSnaps.snapshotPath
+  unfold Generated.Funcs.snapshotPath GoSnaps.snapshotPath Generated.Funcs.escapeFormat GoSnaps.escapeFormat
   simp only [C11.constructFilename_tied]
-  cases h : fpIsAbs c.snapsDir <;> simp [Id.run, pure, GoSem.filepathRel] <;> split <;> simp_all
+  cases sa <;> cases h : fpIsAbs c.snapsDir <;> simp [Id.run, pure, GoSem.filepathRel] <;> split <;> simp_all
 
 /-- `-trimpath` build (outside the model's assumption): `Dir` is used as is, even when relative, and
     the "relative" path is the path itself -/
 theorem snapshotPath_trimpath (caller : Text) (c : Cfg) (tName : Text) (sa : Bool) :
     Generated.Funcs.snapshotPath true caller c tName sa =
-      (fpJoin [c.snapsDir, GoSnaps.constructFilename c caller tName sa],
-       fpJoin [c.snapsDir, GoSnaps.constructFilename c caller tName sa]) := by
-  unfold Generated.Funcs.snapshotPath
-  simp [C11.constructFilename_tied, Id.run, pure]
+      (fpJoin [if sa then GoSnaps.escapeFormat c.snapsDir else c.snapsDir, GoSnaps.constructFilename c caller tName sa],
+       fpJoin [if sa then GoSnaps.escapeFormat c.snapsDir else c.snapsDir, GoSnaps.constructFilename c caller tName sa]) := by
+  unfold Generated.Funcs.snapshotPath Generated.Funcs.escapeFormat GoSnaps.escapeFormat
+  cases sa <;> simp [C11.constructFilename_tied, Id.run, pure]
 
 /-- when the model has a relative path, Go returns exactly it -/
 theorem snapshotPath_rel (caller : Text) (c : Cfg) (tName : Text) (sa : Bool) (r : Text)
